@@ -1067,30 +1067,47 @@ structure Q (k0 k : Kernel) : Prop where
   dfr : k.deferred = true
   props : k.props = k0.props
   nV : k.nV = k0.nV
+  edges : k.edges = k0.edges
+  faces : k.faces = k0.faces
+  cells : k.cells = k0.cells
   len : LenInv k
 
 theorem Q.trans' {a b c : Kernel} (h1 : Q a b) (h2 : Q b c) : Q a c :=
-  ⟨h2.dfr, h2.props.trans h1.props, h2.nV.trans h1.nV, h2.len⟩
+  ⟨h2.dfr, h2.props.trans h1.props, h2.nV.trans h1.nV, h2.edges.trans h1.edges, h2.faces.trans h1.faces,
+   h2.cells.trans h1.cells, h2.len⟩
+
+theorem Q.nE {a b : Kernel} (h : Q a b) : b.nE = a.nE := by show b.edges.length = a.edges.length; rw [h.edges]
+theorem Q.nF {a b : Kernel} (h : Q a b) : b.nF = a.nF := by show b.faces.length = a.faces.length; rw [h.faces]
+theorem Q.nC {a b : Kernel} (h : Q a b) : b.nC = a.nC := by show b.cells.length = a.cells.length; rw [h.cells]
+theorem Q.nHE {a b : Kernel} (h : Q a b) : b.nHE = a.nHE := by show 2 * b.edges.length = 2 * a.edges.length; rw [h.edges]
+theorem Q.nHF {a b : Kernel} (h : Q a b) : b.nHF = a.nHF := by show 2 * b.faces.length = 2 * a.faces.length; rw [h.faces]
 
 theorem foldl_Q {β} (step : Kernel → β → Kernel) (hs : ∀ k x, k.deferred = true → LenInv k → Q k (step k x))
     (xs : List β) (k : Kernel) (hd : k.deferred = true) (hi : LenInv k) : Q k (xs.foldl step k) := by
   induction xs generalizing k with
-  | nil => exact ⟨hd, rfl, rfl, hi⟩
+  | nil => exact ⟨hd, rfl, rfl, rfl, rfl, rfl, hi⟩
   | cons x t ih =>
     simp only [List.foldl_cons]
     have a := hs k x hd hi
     exact a.trans' (ih _ a.dfr a.len)
 
 theorem deleteCellCore_Q (k : Kernel) (h : Nat) (hd : k.deferred = true) (hi : LenInv k) : Q k (k.deleteCellCore h) :=
-  ⟨by rw [deleteCellCore_deferred]; exact hd, by unfold deleteCellCore; simp [hd], deleteCellCore_nV k h, lenInv_deleteCellCore k h hi⟩
+  ⟨by rw [deleteCellCore_deferred]; exact hd, by unfold deleteCellCore; simp [hd], deleteCellCore_nV k h,
+   by unfold deleteCellCore; simp [hd], by unfold deleteCellCore; simp [hd], by unfold deleteCellCore; simp [hd],
+   lenInv_deleteCellCore k h hi⟩
 theorem deleteFaceCore_Q (k : Kernel) (h : Nat) (hd : k.deferred = true) (hi : LenInv k) : Q k (k.deleteFaceCore h) :=
-  ⟨by rw [deleteFaceCore_deferred]; exact hd, by unfold deleteFaceCore; simp [hd], deleteFaceCore_nV k h, lenInv_deleteFaceCore k h hi⟩
+  ⟨by rw [deleteFaceCore_deferred]; exact hd, by unfold deleteFaceCore; simp [hd], deleteFaceCore_nV k h,
+   by unfold deleteFaceCore; simp [hd], by unfold deleteFaceCore; simp [hd], by unfold deleteFaceCore; simp [hd],
+   lenInv_deleteFaceCore k h hi⟩
 theorem deleteEdgeCore_Q (k : Kernel) (h : Nat) (hd : k.deferred = true) (hi : LenInv k) : Q k (k.deleteEdgeCore h) :=
-  ⟨by rw [deleteEdgeCore_deferred]; exact hd, by unfold deleteEdgeCore; simp [hd], deleteEdgeCore_nV k h, lenInv_deleteEdgeCore k h hi⟩
+  ⟨by rw [deleteEdgeCore_deferred]; exact hd, by unfold deleteEdgeCore; simp [hd], deleteEdgeCore_nV k h,
+   by unfold deleteEdgeCore; simp [hd], by unfold deleteEdgeCore; simp [hd], by unfold deleteEdgeCore; simp [hd],
+   lenInv_deleteEdgeCore k h hi⟩
 theorem deleteVertexCore_Q (k : Kernel) (h : Nat) (hd : k.deferred = true) (hi : LenInv k) (hh : h < k.nV) :
     Q k (k.deleteVertexCore h) :=
   ⟨by rw [deleteVertexCore_deferred]; exact hd, by unfold deleteVertexCore; simp [hd],
-   by rw [deleteVertexCore_nV]; simp [hd], lenInv_deleteVertexCore k h hi hh⟩
+   by rw [deleteVertexCore_nV]; simp [hd], by unfold deleteVertexCore; simp [hd], by unfold deleteVertexCore; simp [hd],
+   by unfold deleteVertexCore; simp [hd], lenInv_deleteVertexCore k h hi hh⟩
 
 theorem deleteCell_Q (k : Kernel) (c : Nat) (hd : k.deferred = true) (hi : LenInv k) : Q k (k.deleteCell c) :=
   deleteCellCore_Q k c hd hi
@@ -1122,7 +1139,7 @@ theorem loop_Q (n : Nat) (cond : Kernel → Nat → Bool) (del : Kernel → Nat 
     Q k ((List.range n).foldl (fun k i => if cond k i then del k i else k) k) := by
   suffices ∀ (xs : List Nat), (∀ x ∈ xs, x < bound k) → ∀ k', Q k k' →
       Q k (xs.foldl (fun k i => if cond k i then del k i else k) k') from
-    this (List.range n) (fun x hx => Nat.lt_of_lt_of_le (List.mem_range.1 hx) hn) k ⟨hd, rfl, rfl, hi⟩
+    this (List.range n) (fun x hx => Nat.lt_of_lt_of_le (List.mem_range.1 hx) hn) k ⟨hd, rfl, rfl, rfl, rfl, rfl, hi⟩
   intro xs
   induction xs with
   | nil => intro _ k' q; exact q
@@ -1136,20 +1153,28 @@ theorem loop_Q (n : Nat) (cond : Kernel → Nat → Bool) (del : Kernel → Nat 
 
 theorem enableVBU_Q (k : Kernel) (hd : k.deferred = true) (hi : LenInv k) : Q k (k.enableVBU true) :=
   ⟨by unfold enableVBU; split <;> (try split) <;> simp_all, by unfold enableVBU; split <;> (try split) <;> simp_all,
-   by unfold enableVBU; split <;> (try split) <;> simp_all, lenInv_enableVBU k true hi⟩
+   by unfold enableVBU; split <;> (try split) <;> simp_all, by unfold enableVBU; split <;> (try split) <;> simp_all,
+   by unfold enableVBU; split <;> (try split) <;> simp_all, by unfold enableVBU; split <;> (try split) <;> simp_all,
+   lenInv_enableVBU k true hi⟩
 theorem enableEBU_Q (k : Kernel) (hd : k.deferred = true) (hi : LenInv k) : Q k (k.enableEBU true) :=
   ⟨by unfold enableEBU; split <;> (try split) <;> (try split) <;> simp_all [reorderAll],
+   by unfold enableEBU; split <;> (try split) <;> (try split) <;> simp_all [reorderAll],
+   by unfold enableEBU; split <;> (try split) <;> (try split) <;> simp_all [reorderAll],
+   by unfold enableEBU; split <;> (try split) <;> (try split) <;> simp_all [reorderAll],
    by unfold enableEBU; split <;> (try split) <;> (try split) <;> simp_all [reorderAll],
    by unfold enableEBU; split <;> (try split) <;> (try split) <;> simp_all [reorderAll], lenInv_enableEBU k true hi⟩
 theorem enableFBU_Q (k : Kernel) (hd : k.deferred = true) (hi : LenInv k) : Q k (k.enableFBU true) :=
   ⟨by unfold enableFBU; split <;> (try split) <;> (try split) <;> simp_all [reorderAll],
+   by unfold enableFBU; split <;> (try split) <;> (try split) <;> simp_all [reorderAll],
+   by unfold enableFBU; split <;> (try split) <;> (try split) <;> simp_all [reorderAll],
+   by unfold enableFBU; split <;> (try split) <;> (try split) <;> simp_all [reorderAll],
    by unfold enableFBU; split <;> (try split) <;> (try split) <;> simp_all [reorderAll],
    by unfold enableFBU; split <;> (try split) <;> (try split) <;> simp_all [reorderAll], lenInv_enableFBU k true hi⟩
 
 theorem markPhase_Q (k : Kernel) (man : Bool) (hi : LenInv k) : Q k (markPhase k man) := by
   have q0 : Q k (k.enableDeferred true) := by
     have : k.enableDeferred true = { k with deferred := true } := by unfold enableDeferred; simp
-    rw [this]; exact ⟨rfl, rfl, rfl, lenInv_withDeferred k true hi⟩
+    rw [this]; exact ⟨rfl, rfl, rfl, rfl, rfl, rfl, lenInv_withDeferred k true hi⟩
   have q1 : Q _ (markedVerts (k.enableDeferred true)) :=
     loop_Q _ (fun k v => !k.vDeleted v && markedV k v) deleteVertex (·.nV) (fun _ _ q => q.nV)
       (fun k i hd hi hb => deleteVertex_Q k i hd hi hb) _ q0.dfr q0.len (Nat.le_refl _)
